@@ -256,7 +256,7 @@ def open_model_check(pid, quick):
 def seek_model_check(pid, quick):
     """VFSeek_MC: the repaired search over every small layout; and the three pinned rules, each of which TLC must refute (the model can tell them apart)"""
     out = dict(states=0, transitions=0, configs={}, pinned_rules_refuted={}); viol = []
-    cfgs = ['VFSeek_MC.cfg'] if quick else ['VFSeek_MC.cfg', 'VFSeek_MC_5.cfg', 'VFSeek_MC_6.cfg']
+    cfgs = ['VFSeek_MC.cfg'] if quick else ['VFSeek_MC.cfg', 'VFSeek_MC_5.cfg', 'VFSeek_MC_6.cfg', 'VFSeek_MC_lies.cfg']
     for c in cfgs:
         r = vlib.run_tlc_cached('VFSeek_MC.tla', c, workers=4 if quick else 14, timeout=300 if quick else 3000)
         out['configs'][c] = dict(ok=bool(r['ok']), states=r['distinct'], wall_s=round(r['wall'], 1)); out['states'] += r['distinct']; out['transitions'] += r['generated']
@@ -264,7 +264,7 @@ def seek_model_check(pid, quick):
             os.makedirs(vlib.REPLAY, exist_ok=True); p = os.path.join(vlib.REPLAY, f'{pid}-design-{c}.txt'); o = r['out']; i = o.find('Error:'); open(p, 'w').write(o[max(0, i):i + 4000])
             if r['violated']: viol.append(dict(replay=p, what=f'design-level invariant of VFSeek_MC violated under {c}: the page search as modelled from the current tree submits the wrong page or does not terminate'))
             else: raise SystemExit(f'TLC failed on {c}: ' + o[-800:])
-    for c in (['VFSeek_MC_pinned_handover.cfg', 'VFSeek_MC_pinned_end.cfg'] if quick else ['VFSeek_MC_pinned_handover.cfg', 'VFSeek_MC_pinned_end.cfg', 'VFSeek_MC_pinned_backup.cfg']):
+    for c in (['VFSeek_MC_pinned_handover.cfg', 'VFSeek_MC_pinned_end.cfg', 'VFSeek_MC_pinned_guess.cfg'] if quick else ['VFSeek_MC_pinned_handover.cfg', 'VFSeek_MC_pinned_end.cfg', 'VFSeek_MC_pinned_guess.cfg', 'VFSeek_MC_pinned_backup.cfg']):
         r = vlib.run_tlc('VFSeek_MC.tla', c, workers=4 if quick else 14, timeout=600 if quick else 3000)
         out['pinned_rules_refuted'][c] = bool(r['violated'])
     return out, viol
